@@ -865,6 +865,22 @@ def t_hetfacts():
     hsup = 'blocks/support/het_support.py'
     facts['markov_uses_ith_dimension'] = ('return multiply_ith_dimension(self.Pi_T, self.i, D)' in ast.unparse(find_def(hsup, 'Markov.forward'))
                                           and 'return multiply_ith_dimension(self.Pi, self.i, X)' in ast.unparse(find_def(hsup, 'Markov.expectation')))
+    # discrete-choice law of motion and the logit stage (Model/DChoice.v)
+    lomf = 'blocks/support/law_of_motion.py'
+    def stmts(fn):
+        return [ast.unparse(b) for b in fn.body if not (isinstance(b, ast.Expr) and isinstance(b.value, ast.Constant))]
+    facts['dchoice_matmul_shape'] = (stmts(find_def(lomf, 'DiscreteChoice.__matmul__')) ==
+                                     ['if self.forward:\n    return batch_multiply_ith_dimension(self.P, self.i, X)\nelse:\n    return batch_multiply_ith_dimension(self.P_T, self.i, X)']
+                                     and stmts(find_def(lomf, 'DiscreteChoice.__init__')) == ['self.P = P', 'self.i = i', 'self.forward = True', 'self.P_T = P.swapaxes(0, 1 + self.i).copy()']
+                                     and stmts(find_def(lomf, 'DiscreteChoice.T')) == ['newself = copy.copy(self)', 'newself.forward = not self.forward', 'return newself'])
+    facts['logit_choice_shape'] = stmts(find_def('utilities/misc.py', 'logit_choice')) == ['const = V.max(axis=0)', 'Vnorm = V - const', 'Vexp = np.exp(Vnorm / scale)', 'Vexpsum = Vexp.sum(axis=0)',
+                                                                                          'P = Vexp / Vexpsum', 'EV = const + scale * np.log(Vexpsum)', 'return (P, EV)']
+    lcs = ast.unparse(find_def('blocks/support/stages.py', 'LogitChoice.backward_step_shock'))
+    lcb = ast.unparse(find_def('blocks/support/stages.py', 'LogitChoice.backward_step'))
+    facts['logit_stage_shock_shape'] = all(x in lcs for x in ('dV_next = shocks[self.value]', 'dV = dV_next[np.newaxis, ...]', 'dV = np.swapaxes(dV, 0, self.index + 1)', 'dV = dflow_u + dV',
+        'dEV = np.sum(lom.P * dV, axis=0)', 'scale = ss[self.taste_shock_scale]', 'dP = lom.P * (dV - dEV) / scale', 'dlom = DiscreteChoice(dP, self.index)', 'doutputs = {self.value: dEV}',
+        'doutputs[k] = dlom.T @ ss[k]', 'doutputs[k] += lom.T @ shocks[k]', 'return (doutputs, dlom)')) and all(x in lcb for x in ('V = V_next[np.newaxis, ...]', 'V = np.swapaxes(V, 0, self.index + 1)',
+        'V = flow_u + V', 'P, EV = logit_choice(V, inputs[self.taste_shock_scale])', 'lom = DiscreteChoice(P, self.index)', 'outputs = {k: lom.T @ inputs[k] for k in self.backward}', 'outputs[self.value] = EV'))
     sbs = find_def('blocks/stage_block.py', 'StageBlock.backward_steady_state')
     ssrc = ast.unparse(sbs)
     sloops = [n for n in sbs.body if isinstance(n, ast.For) and n.orelse]
